@@ -159,6 +159,11 @@ def o12(ctx):
         if "ite" in ops or "transposed" in ops or ".T" in ops or any(o in ops for o in ("add", "mul", "sub")):
             ctx.finding(q, "data argument of pd.DataFrame in read_in", "the table must be built from the file's first slice "
                         "as it is (one row per particle); the code re-arranges or transforms it: " + tm.show(dt)[:200], fn, m)
+        elif any(n.op == "call" and n.args[0] == ".astype" and len(n.args) > 2 and tm.show(n.args[2]).strip("'") in ("ref:builtins.str", "str", "U", "ref:numpy.str_")
+                 for n in tm.walk(dt)):
+            ctx.finding(q, "data argument of pd.DataFrame in read_in", "the float32 values of the file pass through their text form before they become the "
+                        "table: the loaded number is then the shortest decimal that prints the same, not the single-precision value that was "
+                        "written (0.7 instead of 0.699999988...): " + tm.show(dt)[:160], fn, m)
         else:
             raise Unsupported("data source of the table in read_in: " + tm.show(dt)[:160], fn)
     # column-count guard
